@@ -603,8 +603,25 @@ def translate(path: Path) -> Translation:
     for f, v in t.fields.items():
         if isinstance(v, Exception):
             t.broken.append((f"ruleset field {f}", str(v)))
-    check_skeletons(classes, t)
+    check_skeletons(classes, t, tree)
     return t
+
+
+def write_skeletons(path: Path):
+    """(development) record the shape of the pinned tree"""
+    import json  # pylint: disable=import-outside-toplevel
+    tree = ast.parse(path.read_text())
+    classes = {n.name: n for n in tree.body if isinstance(n, ast.ClassDef)}
+    t = Translation()
+    for fn in (lambda: rules_of_eval(classes["VectorCross"], "_eval_vector_dot", "dot", t.rules, t.fields),
+               lambda: rules_of_eval(classes["VectorCross"], "_eval_vector_cross", "cross", t.rules, t.fields),
+               lambda: arms_of_dot(classes["VectorDot"], t.rules, t.fields), lambda: arms_of_cross(classes["VectorCross"], t.rules, t.fields),
+               lambda: arms_of_mixed(classes["VectorMixedProduct"], t.rules, t.fields), lambda: rules_of_norm(classes["VectorNorm"], t.rules, t.fields),
+               lambda: rules_of_derivatives(classes, t.rules)):
+        fn()
+    data = current_skeletons(classes, t.rules)
+    data.update(static_inventory(tree))
+    SKELETON_FILE.write_text(json.dumps(data, indent=1))
 
 
 # ---------------------------------------------------------------------------------------------
@@ -654,12 +671,66 @@ def current_skeletons(classes, rules):
     return out
 
 
-def check_skeletons(classes, t):
+MUTABLE_CALLS = {"dict", "list", "set", "defaultdict", "OrderedDict", "deque", "Counter", "WeakValueDictionary", "WeakKeyDictionary",
+    "lru_cache", "cache"}
+
+
+def _dec_name(d):
+    d = d.func if isinstance(d, ast.Call) else d
+    return ast.unparse(d)
+
+
+def static_inventory(tree):
+    """members of the translated classes, module-level mutable state, decorators of every function: a new method (e.g.
+    `_eval_derivative_n_times`), a new module-level dict / list / cache or a new caching decorator is a change of the engine the
+    translator knows nothing about"""
+    members, state, decos = {}, [], {}
+    for n in tree.body:
+        if isinstance(n, ast.ClassDef):
+            names = []
+            for m in n.body:
+                if isinstance(m, (ast.FunctionDef, ast.AsyncFunctionDef)):
+                    names.append(m.name)
+                    decos[f"{n.name}.{m.name}"] = sorted(_dec_name(d) for d in m.decorator_list)
+                elif isinstance(m, ast.Assign):
+                    names += [ast.unparse(t_) for t_ in m.targets]
+                elif isinstance(m, ast.AnnAssign):
+                    names.append(ast.unparse(m.target))
+            members[n.name] = sorted(names)
+        elif isinstance(n, (ast.FunctionDef, ast.AsyncFunctionDef)):
+            decos[n.name] = sorted(_dec_name(d) for d in n.decorator_list)
+        elif isinstance(n, (ast.Assign, ast.AnnAssign)):
+            value = n.value
+            targets = n.targets if isinstance(n, ast.Assign) else [n.target]
+            mutable = isinstance(value, (ast.Dict, ast.List, ast.Set, ast.ListComp, ast.DictComp, ast.SetComp)) or (
+                isinstance(value, ast.Call) and ast.unparse(value.func).split(".")[-1] in MUTABLE_CALLS)
+            if mutable:
+                state += [ast.unparse(t_) for t_ in targets if ast.unparse(t_) != "__all__"]
+    return {"__members__": {k: v for k, v in members.items() if k in {c for c, _m, _s in LOCKED}}, "__module_state__": sorted(state),
+        "__decorators__": {k: v for k, v in decos.items() if v}}
+
+
+def check_skeletons(classes, t, tree=None):
     import json  # pylint: disable=import-outside-toplevel
     if not SKELETON_FILE.exists():
         t.broken.append(("skeletons", f"{SKELETON_FILE} missing"))
         return
     want = json.loads(SKELETON_FILE.read_text())
+    if tree is not None:
+        inv = static_inventory(tree)
+        for cname, names in inv["__members__"].items():
+            new = sorted(set(names) - set(want.get("__members__", {}).get(cname, [])))
+            gone = sorted(set(want.get("__members__", {}).get(cname, [])) - set(names))
+            if new or gone:
+                stage = "_eval_derivative" if any("deriv" in x for x in new + gone) else f"{cname}.__new__"
+                t.broken.append((stage, f"class {cname}: members added {new}, removed {gone} -- not known to the translator"))
+        if inv["__module_state__"] != want.get("__module_state__", []):
+            t.broken.append(("module state", f"module-level mutable objects are {inv['__module_state__']}, recorded "
+                f"{want.get('__module_state__', [])}: the engine must be a function of its arguments"))
+        if inv["__decorators__"] != want.get("__decorators__", {}):
+            diff = {k: v for k, v in inv["__decorators__"].items() if want.get("__decorators__", {}).get(k) != v}
+            diff.update({k: [] for k in want.get("__decorators__", {}) if k not in inv["__decorators__"]})
+            t.broken.append(("module state", f"decorators changed: {diff}"))
     got = current_skeletons(classes, t.rules)
     already = {st for st, _ in t.broken}
     for cname, mname, stage in LOCKED:
